@@ -33,6 +33,9 @@ def worker(args, scratch):
         vid = req.header("x-vf-id") or b""
         if vid.endswith(b"-hf"):
             return {"reset": True}      # the host drops the connection while answering this request
+        if vid.endswith((b"-s401", b"-s403")):
+            # the HOST refuses the relayed request with its own 401/403: that is the host's answer, not a denial by the proxy's rules
+            return {"status": int(vid[-3:]), "headers": [("x-vf-echo", vid)], "body": b"host says no"}
         return wproxy.World.default_handler(name, req)
     w = wproxy.World(scratch, runtime="multi:8", handler=handler)
     endpoint = args["endpoint"]
@@ -55,7 +58,8 @@ def worker(args, scratch):
             base = [(r.randrange(len(callers)), r.choice(["GET", "POST", "DELETE"]), gen_rbac.gen_url(r)) for _ in range(args["distinct"])]
             for _ in range(args["requests"]):
                 ci, method, url = r.choice(base)   # many identical requests -> counts
-                seq.append((ci, method, url, r.random() < 0.08))     # last: the host fails while answering this request
+                hf = r.random()
+                seq.append((ci, method, url, True if hf < 0.08 else (r.choice([401, 403]) if hf < 0.2 else False)))     # last: the host fails / refuses while answering this request
             reference_upstream = None
             for mode in ("allow-all", "enforce", "audit", "disabled"):
                 d = ALLOW_ALL if mode == "allow-all" else dict(doc, mode=mode, id="%s-%d-%s" % (endpoint, rs, mode))
@@ -67,7 +71,7 @@ def worker(args, scratch):
                 def run_slice(lo, hi):
                     for i in range(lo, hi):
                         ci, method, url, hostfault = seq[i]
-                        vid = "%s-%d%s" % (tag, i, "-hf" if hostfault else "")
+                        vid = "%s-%d%s" % (tag, i, "-hf" if hostfault is True else ("-s%d" % hostfault if hostfault else ""))
                         try:
                             conn = w.open(endpoint, callers[ci])
                             body = b"b" * 10 if method == "POST" else b""
@@ -121,7 +125,7 @@ def worker(args, scratch):
                             res["violations"].append(["enforce-denial-not-403", wit])
                         if upstream.get(i):
                             res["violations"].append(["enforce-denial-relayed", wit])
-                    elif hostfault:
+                    elif hostfault is True:
                         # the host dropped the connection: the client gets a gateway error, the request did reach the host; a denial stays a denial
                         bump("host_fault_requests")
                         if denied and mode == "audit":
@@ -131,7 +135,10 @@ def worker(args, scratch):
                     else:
                         if denied and mode == "audit":
                             bump("denied_audit_forwarded")
-                        if results[i] != 200 or len(upstream.get(i, [])) != 1:
+                        want_status = hostfault if hostfault else 200
+                        if hostfault:
+                            bump("requests_refused_by_the_host_itself")
+                        if results[i] != want_status or len(upstream.get(i, [])) != 1:
                             res["violations"].append(["%s-not-forwarded" % ("audit-denial" if denied else "allowed-request"), wit])
                         elif reference_upstream is not None and mode in ("audit", "disabled"):
                             ref = reference_upstream.get(i)
